@@ -51,6 +51,9 @@ const SET_BLOCKED_TX: Token = Token(u16::max_value() as usize + 4);
 
 enum IoLoopMessage {
     Send(OutputBuffer),
+    // One piece of a publish (its method, content header or a body frame); the flag is
+    // true while more pieces of the same publish are to follow.
+    SendContent(OutputBuffer, bool),
     ChannelClose(OutputBuffer),
     ConnectionClose(OutputBuffer),
     SetReturnHandler(Option<CrossbeamSender<Return>>),
@@ -70,6 +73,13 @@ struct ChannelSlot {
     consumers: HashMap<String, CrossbeamSender<ConsumerMessage>>,
     return_handler: Option<CrossbeamSender<Return>>,
     pub_confirm_handler: Option<CrossbeamSender<Confirm>>,
+
+    // A publish passes through piece by piece. While one is under way, frames the I/O
+    // thread itself originates on this channel (the CancelOk answering a server cancel)
+    // wait in `deferred_output`: nothing may come between a publish's frames on its
+    // channel.
+    publish_in_progress: bool,
+    deferred_output: Option<OutputBuffer>,
 
     // Set once the client has sent Channel.Close for this channel. A Channel.CloseOk
     // from the server is only meant for a slot that has asked for it; see the CloseOk
@@ -103,6 +113,8 @@ impl ChannelSlot {
             consumers: HashMap::new(),
             return_handler: None,
             pub_confirm_handler: None,
+            publish_in_progress: false,
+            deferred_output: None,
             close_requested: false,
         };
 
@@ -736,6 +748,19 @@ impl Inner {
         self.outbuf.push_method(channel_id, method)
     }
 
+    // Like push_method, for a method the I/O thread sends on an open channel on its own
+    // initiative: if a publish is passing through that channel, the method goes out right
+    // behind it instead of between its frames.
+    fn push_method_between_publishes<M: IntoAmqpClass>(&mut self, channel_id: u16, method: M) {
+        match self.chan_slots.get_mut(channel_id) {
+            Some(slot) if slot.publish_in_progress => slot
+                .deferred_output
+                .get_or_insert_with(OutputBuffer::empty)
+                .push_method(channel_id, method),
+            _ => self.outbuf.push_method(channel_id, method),
+        }
+    }
+
     #[inline]
     fn start_heartbeats(&mut self, interval: u16) {
         if interval > 0 {
@@ -846,6 +871,17 @@ impl Inner {
             }
             IoLoopMessage::Send(buf) => {
                 self.outbuf.append(buf);
+            }
+            IoLoopMessage::SendContent(buf, more_follows) => {
+                self.outbuf.append(buf);
+                if let Some(slot) = self.chan_slots.get_mut(channel_id) {
+                    slot.publish_in_progress = more_follows;
+                    if !more_follows {
+                        if let Some(deferred) = slot.deferred_output.take() {
+                            self.outbuf.append(deferred);
+                        }
+                    }
+                }
             }
             IoLoopMessage::ChannelClose(buf) => {
                 self.outbuf.append(buf);
